@@ -499,4 +499,206 @@ Section BackwardProofs.
     split; [rewrite A, A'; reflexivity|]. split; [rewrite B, B'; reflexivity|].
     intro p. rewrite apply_cs_pgrad. reflexivity.
   Qed.
+
+  (* ---------- isolation: only ancestors of the target are ever touched ---------- *)
+  Lemma add_all_grad_none l : forall s : slot, s_grad s = None -> s_grad (add_all l s) = None.
+  Proof. induction l as [|x l IH]; intros s H; simpl; auto. apply IH. unfold add_inc. rewrite H. exact H. Qed.
+  Lemma step_slot_grad k args incs b (s : slot) :
+    s_grad (step_slot k args incs b s) <> None -> s_grad s <> None \/ (k <> fst b /\ In b args).
+  Proof.
+    unfold step_slot. destruct (Nat.eqb_spec k (fst b)) as [Hk|Hk]; [simpl; congruence|].
+    destruct (mem_addr b args) eqn:Em.
+    - intros _. right. split; auto. apply mem_addr_in. exact Em.
+    - intro H. left. intro Hn. apply H. apply add_all_grad_none. exact Hn.
+  Qed.
+
+  Lemma sg_args (ops ops' : ops_t) : sg ops = sg ops' -> forall k, args_of ops k = args_of ops' k.
+  Proof.
+    intros H k. pose proof (sg_nth ops ops' k H) as Hk. unfold args_of.
+    destruct (nth_error ops k), (nth_error ops' k); try contradiction; auto. tauto.
+  Qed.
+  Lemma sg_inner (ops ops' : ops_t) : sg ops = sg ops' -> forall k, inner_of F ops k = inner_of F ops' k.
+  Proof.
+    intros H k. pose proof (sg_nth ops ops' k H) as Hk. unfold inner_of.
+    destruct (nth_error ops k), (nth_error ops' k); try contradiction; auto. destruct Hk as (E & _). rewrite E. reflexivity.
+  Qed.
+  Lemma sg_anc (ops ops' : ops_t) : sg ops = sg ops' -> forall j k, anc ops j k -> anc ops' j k.
+  Proof.
+    intros H j k Ha. induction Ha as [k|j a k Hin _ IH]; [constructor|].
+    eapply anc_step; eauto. rewrite <- (sg_args _ _ H). exact Hin.
+  Qed.
+
+  Definition gsub (ops0 : ops_t) (T : nat) (ops : ops_t) : Prop :=
+    forall b s, get_slot_ops ops b = Some s -> s_grad s <> None -> anc ops0 (fst b) T.
+
+  Lemma enabled_true (oi : opinfo) : enabled (o_rets oi) = true -> exists j s, nth_error (o_rets oi) j = Some s /\ s_grad s <> None.
+  Proof.
+    unfold enabled. rewrite existsb_exists. intros (s & Hin & Hg). apply In_nth_error in Hin. destruct Hin as (j & Hj).
+    exists j, s. split; auto. unfold has_grad in Hg. destruct (s_grad s); [discriminate|discriminate].
+  Qed.
+
+  Lemma sweep_anc k (ops : ops_t) e bl ops' e' bl' T : wf_ops ops ->
+    sweep F VO k ops e bl = Some (ops', e', bl') -> gsub ops T ops ->
+    (forall j, In j bl' -> In j bl \/ anc ops j T) /\
+    (forall p, (forall j, anc ops j T -> inner_of F ops j <> Some p) -> e_pgrad e' p = e_pgrad e p).
+  Proof.
+    intros Hwf H Hg.
+    pose (P := fun (n : nat) (o : ops_t) (e1 : env) (bl1 : list nat) =>
+                 sg o = sg ops /\ gsub ops T o /\ (forall j, In j bl1 -> In j bl \/ anc ops j T) /\
+                 (forall p, (forall j, anc ops j T -> inner_of F ops j <> Some p) -> e_pgrad e1 p = e_pgrad e p)).
+    assert (HP : P 0 ops' e' bl').
+    { eapply (sweep_inv P); [|exact Hwf|exact H|unfold P; auto].
+      clear H Hg. intros k0 ops0 e0 bl0 ops1 e1 c Hwf0 Hb (Hs & Hgs & Hbl & Hpg). unfold P.
+      split; [rewrite (bstep_sg _ _ _ _ _ _ Hwf0 Hb); exact Hs|].
+      destruct c.
+      - destruct (step_get _ _ _ _ _ Hwf0 Hb) as (cur & incs & Ecur & Hen & _ & Hget & _ & _ & ->).
+        assert (Hk : anc ops k0 T).
+        { destruct (enabled_true cur Hen) as (j & s & Hj & Hsg). apply (Hgs (k0, j) s); auto.
+          unfold get_slot_ops. simpl. rewrite Ecur. exact Hj. }
+        split; [|split].
+        + intros b s Hb0 Hsg. rewrite Hget in Hb0. destruct (get_slot_ops ops0 b) as [s0|] eqn:E0; [|discriminate].
+          injection Hb0 as <-. destruct (step_slot_grad _ _ _ _ _ Hsg) as [Hold|(_ & Hin)]; [eapply Hgs; eauto|].
+          eapply anc_trans; [|exact Hk]. eapply anc_step; [|apply anc_refl]. rewrite <- (sg_args _ _ Hs). unfold args_of. rewrite Ecur. exact Hin.
+        + intros j Hj. apply in_app_or in Hj. destruct Hj as [Hj|[<-|[]]]; auto.
+        + intros p Hp. rewrite <- (Hpg p Hp). unfold step_env.
+          destruct (f_inner F (o_op cur)) as [q|] eqn:Eq; [|reflexivity].
+          destruct (map (grad_or_zero VO) (o_rets cur)); [reflexivity|]. cbn [add_pgrad e_pgrad].
+          destruct (Nat.eqb_spec p q) as [->|N]; [|reflexivity]. exfalso. apply (Hp k0 Hk).
+          rewrite <- (sg_inner _ _ Hs). unfold inner_of. rewrite Ecur. exact Eq.
+      - destruct (bstep_shape _ _ _ _ _ _ Hwf0 Hb) as (cur & Ecur & [(_ & Hen & -> & ->)|(Hcc & _)]); [|discriminate]. auto. }
+    destruct HP as (_ & _ & A & B). auto.
+  Qed.
+
+  (* ---------- blocked paths: what is not reached by a gradient-carrying path only ever sees zeros ---------- *)
+  (* glive ops T k: a gradient-carrying path leads from the target operator T to operator k
+     (every operator on the way, T included, has a real backward: not BACKWARD_NOP) *)
+  Inductive glive (ops : ops_t) (T : nat) : nat -> Prop :=
+  | gl_root : glive ops T T
+  | gl_step k oi a : glive ops T k -> nth_error ops k = Some oi -> f_nop F (o_op oi) = false ->
+                     In a (o_args oi) -> glive ops T (fst a).
+
+  Lemma sg_glive (ops ops' : ops_t) T : sg ops = sg ops' -> forall k, glive ops T k -> glive ops' T k.
+  Proof.
+    intros H k Hg. induction Hg as [|k oi a _ IH E Hn Ha]; [constructor|].
+    pose proof (sg_nth ops ops' k H) as Hk. rewrite E in Hk. destruct (nth_error ops' k) as [oi'|] eqn:E'; [|contradiction].
+    destruct Hk as (Eo & Ea & _). eapply gl_step; [exact IH|exact E'| |]; congruence.
+  Qed.
+
+  Definition shape_ok (ops : ops_t) : Prop :=
+    forall k oi, nth_error ops k = Some oi -> f_inner F (o_op oi) = None ->
+      exists ashs, Forall2 (fun a sh => exists s, get_slot_ops ops a = Some s /\ s_shape s = sh) (o_args oi) ashs /\
+                   f_shape F (o_op oi) ashs = Some (map s_shape (o_rets oi)).
+
+  (* contract used only for the blocked-path theorem: `+= zeros` is all a backward does when
+     every upstream gradient is zeros (backward is linear in gy), and zeros + zeros = zeros *)
+  Hypothesis Hzz : forall sh, vadd VO (vzeros VO sh) (vzeros VO sh) = vzeros VO sh.
+  Hypothesis Hbwz : forall o ashs rshs xs ys, f_shape F o ashs = Some rshs ->
+    forall i inc, nth_error (f_bw F o xs ys (map (vzeros VO) rshs)) i = Some inc ->
+      exists sh, nth_error ashs i = Some sh /\ inc = vzeros VO sh.
+
+  Definition zgrad (s : slot) : Prop := forall x, s_grad s = Some x -> x = vzeros VO (s_shape s).
+
+  Lemma add_all_zeros l : forall s : slot, zgrad s -> Forall (fun x => x = vzeros VO (s_shape s)) l -> zgrad (add_all l s).
+  Proof.
+    induction l as [|x l IH]; intros s Hz Hl; simpl; auto. inversion Hl as [|? ? Hx Hl']; subst.
+    assert (Hsh : s_shape (add_inc VO (vzeros VO (s_shape s)) s) = s_shape s) by (unfold add_inc; destruct (s_grad s); reflexivity).
+    apply IH.
+    - unfold zgrad, add_inc. destruct (s_grad s) as [gx|] eqn:Eg; cbn [s_grad set_grad s_shape]; [|rewrite Eg; discriminate].
+      intros y [= <-]. rewrite (Hz gx Eg). apply Hzz.
+    - rewrite Hsh. exact Hl'.
+  Qed.
+
+  Lemma incs_for_zeros (ops : ops_t) b sb : get_slot_ops ops b = Some sb ->
+    forall args incs,
+    (forall i inc, nth_error incs i = Some inc -> exists a s, nth_error args i = Some a /\ get_slot_ops ops a = Some s /\ inc = vzeros VO (s_shape s)) ->
+    Forall (fun x => x = vzeros VO (s_shape sb)) (incs_for b args incs).
+  Proof.
+    intros Hb. induction args as [|a args IH]; intros [|inc incs] H; simpl; try constructor.
+    assert (Htail : Forall (fun x => x = vzeros VO (s_shape sb)) (incs_for b args incs)).
+    { apply IH. intros i inc0 Hi. apply (H (S i) inc0 Hi). }
+    destruct (addr_eq_spec a b) as [->|N]; [|exact Htail]. constructor; [|exact Htail].
+    destruct (H 0 inc eq_refl) as (a0 & s0 & Ea & Es & ->). simpl in Ea. injection Ea as <-. congruence.
+  Qed.
+
+  Definition zero_of (ops : ops_t) (p : nat) (z : V) : Prop :=
+    exists k oi s, nth_error ops k = Some oi /\ f_inner F (o_op oi) = Some p /\ In s (o_rets oi) /\ z = vzeros VO (s_shape s).
+
+  Lemma sweep_blocked k (ops : ops_t) e bl ops' e' bl' T : wf_ops ops -> shape_ok ops ->
+    sweep F VO k ops e bl = Some (ops', e', bl') ->
+    (forall b s, get_slot_ops ops b = Some s -> ~ glive ops T (fst b) -> zgrad s) ->
+    forall p, (forall j, glive ops T j -> inner_of F ops j <> Some p) ->
+      exists zs, e_pgrad e' p = fold_left (vadd VO) zs (e_pgrad e p) /\ Forall (zero_of ops p) zs.
+  Proof.
+    intros Hwf Hsh H Hz.
+    pose (P := fun (n : nat) (o : ops_t) (e1 : env) (bl1 : list nat) =>
+                 sg o = sg ops /\ (forall b s, get_slot_ops o b = Some s -> ~ glive ops T (fst b) -> zgrad s) /\
+                 (forall p, (forall j, glive ops T j -> inner_of F ops j <> Some p) ->
+                    exists zs, e_pgrad e1 p = fold_left (vadd VO) zs (e_pgrad e p) /\ Forall (zero_of ops p) zs)).
+    assert (HP : P 0 ops' e' bl').
+    { eapply (sweep_inv P); [|exact Hwf|exact H|].
+      2:{ unfold P. split; [reflexivity|]. split; [exact Hz|]. intros p _. exists []. split; [reflexivity|constructor]. }
+      clear H Hz. intros k0 ops0 e0 bl0 ops1 e1 c Hwf0 Hb (Hs & Hzs & Hpg). unfold P.
+      split; [rewrite (bstep_sg _ _ _ _ _ _ Hwf0 Hb); exact Hs|].
+      destruct c.
+      2:{ destruct (bstep_shape _ _ _ _ _ _ Hwf0 Hb) as (cur & Ecur & [(_ & Hen & -> & ->)|(Hcc & _)]); [|discriminate]. auto. }
+      destruct (step_get _ _ _ _ _ Hwf0 Hb) as (cur & incs & Ecur & Hen & (xs & Hxs & Hincs) & Hget & _ & _ & ->).
+      (* the original entry of k0: same operator, arguments, shapes *)
+      pose proof (sg_nth ops0 ops k0 Hs) as Hk0. rewrite Ecur in Hk0.
+      destruct (nth_error ops k0) as [cur0|] eqn:Ecur0; [|contradiction]. destruct Hk0 as (Eo & Ea & _ & _ & Eshp).
+      (* upstream gradients of a non-live operator are all zeros *)
+      assert (Hgys : ~ glive ops T k0 -> map (grad_or_zero VO) (o_rets cur) = map (vzeros VO) (map s_shape (o_rets cur))).
+      { intro Hnl. rewrite map_map. apply list_ext. intro j. rewrite !nth_error_map.
+        destruct (nth_error (o_rets cur) j) as [s|] eqn:Ej; [|reflexivity]. simpl. f_equal.
+        unfold grad_or_zero. destruct (s_grad s) as [x|] eqn:Ex; [|reflexivity].
+        apply (Hzs (k0, j) s); auto. unfold get_slot_ops. simpl. rewrite Ecur. exact Ej. }
+      split.
+      - intros b s Hb0 Hnl. rewrite Hget in Hb0. destruct (get_slot_ops ops0 b) as [s0|] eqn:E0; [|discriminate].
+        injection Hb0 as <-. pose proof (Hzs b s0 E0 Hnl) as Hz0. unfold step_slot.
+        destruct (Nat.eqb_spec k0 (fst b)) as [Hk|Hk]; [intros x; simpl; discriminate|].
+        set (s1 := if mem_addr b (o_args cur) then mat_zero VO s0 else s0).
+        assert (Hz1 : zgrad s1 /\ s_shape s1 = s_shape s0).
+        { unfold s1. destruct (mem_addr b (o_args cur)); [|auto]. unfold mat_zero, zgrad.
+          destruct (s_grad s0) eqn:Eg; [auto|]. cbn [s_grad set_grad s_shape]. split; [intros x [= <-]; reflexivity|reflexivity]. }
+        destruct Hz1 as (Hz1 & Hsh1). apply add_all_zeros; [exact Hz1|]. rewrite Hsh1.
+        destruct (f_inner F (o_op cur)) as [q|] eqn:Eq.
+        { subst incs. destruct (o_args cur); constructor. }
+        destruct Hincs as (ys & Hys & ->). unfold eff_bw.
+        destruct (f_nop F (o_op cur)) eqn:Enop; [destruct (o_args cur); constructor|].
+        destruct (mem_addr b (o_args cur)) eqn:Em; [|rewrite incs_for_nil by exact Em; constructor].
+        (* b is an argument of k0; b not live and k0 has a real backward, so k0 is not live *)
+        assert (Hnl0 : ~ glive ops T k0).
+        { intro Hl. apply Hnl. apply mem_addr_in in Em. eapply gl_step; [exact Hl|exact Ecur0|congruence|congruence]. }
+        rewrite (Hgys Hnl0).
+        assert (Ein0 : f_inner F (o_op cur0) = None) by congruence.
+        destruct (Hsh k0 cur0 Ecur0 Ein0) as (ashs & Hashs & Hfs).
+        apply (incs_for_zeros ops0 b s0 E0). intros i inc Hi.
+        rewrite Eshp, Eo in Hi. destruct (Hbwz _ _ _ xs ys Hfs i inc Hi) as (sh & Esh & ->).
+        (* position i of the argument list has shape sh, also in the current state *)
+        destruct (nth_error (o_args cur0) i) as [a|] eqn:Eai.
+        2:{ apply nth_error_None in Eai. apply Forall2_length' in Hashs. apply nth_error_lt in Esh. lia. }
+        assert (Hai : exists s, get_slot_ops ops a = Some s /\ s_shape s = sh).
+        { clear - Hashs Eai Esh. revert i Eai Esh. induction Hashs as [|a0 sh0 l l' Hx _ IH]; intros [|i] Eai Esh; simpl in *; try discriminate.
+          - injection Eai as <-. injection Esh as <-. exact Hx.
+          - eapply IH; eauto. }
+        destruct Hai as (sa & Esa & <-). exists a. rewrite Ea.
+        (* same shape in ops0 *)
+        pose proof (sg_nth ops0 ops (fst a) Hs) as Hka. unfold get_slot_ops in Esa |- *.
+        destruct (nth_error ops (fst a)) as [oa|] eqn:Eoa; [|discriminate].
+        destruct (nth_error ops0 (fst a)) as [oa0|] eqn:Eoa0; [|contradiction]. destruct Hka as (_ & _ & _ & _ & Eshs).
+        assert (Hshape : option_map s_shape (nth_error (o_rets oa0) (snd a)) = option_map s_shape (nth_error (o_rets oa) (snd a)))
+          by (rewrite <- !nth_error_map, Eshs; reflexivity).
+        rewrite Esa in Hshape. destruct (nth_error (o_rets oa0) (snd a)) as [sa0|]; [|discriminate].
+        simpl in Hshape. injection Hshape as Hshape. exists sa0. rewrite Hshape. auto.
+      - intros p Hp. destruct (Hpg p Hp) as (zs & Ez & Hzs'). unfold step_env.
+        destruct (f_inner F (o_op cur)) as [q|] eqn:Eq; [|exists zs; auto].
+        destruct (map (grad_or_zero VO) (o_rets cur)) as [|gy rest] eqn:Egy; [exists zs; auto|].
+        cbn [add_pgrad e_pgrad]. destruct (Nat.eqb_spec p q) as [->|N]; [|exists zs; auto].
+        assert (Hnl0 : ~ glive ops T k0).
+        { intro Hl. apply (Hp k0 Hl). unfold inner_of. rewrite Ecur0. congruence. }
+        exists (zs ++ [gy]). rewrite fold_left_app. simpl. rewrite Ez. split; [reflexivity|].
+        apply Forall_app. split; [exact Hzs'|]. constructor; [|constructor].
+        pose proof (Hgys Hnl0) as Hg0. rewrite Eshp in Hg0. destruct (o_rets cur0) as [|s r] eqn:Er; [discriminate|].
+        simpl in Hg0. injection Hg0 as -> _. exists k0, cur0, s. rewrite Er. repeat split; auto; [congruence|left; reflexivity]. }
+    destruct HP as (_ & _ & A). exact A.
+  Qed.
 End BackwardProofs.
